@@ -34,6 +34,10 @@ RULE = ("random objective/box/N=1..5/density/r/eps/itersLimit; the run is steppe
 
 
 def check_case(case):
+    return _check_case(case, [])
+
+
+def _check_case(case, front):
     vs = []
     info = {"checks": 0}
     holder = [None, None]
@@ -60,7 +64,7 @@ def check_case(case):
                 check_now("OnMethodStop")
 
     ff = bool(case.get("first_fails"))
-    run = oc.Run(case, listeners=[Rec()] if case.get("listener", True) else [],
+    run = oc.Run(case, listeners=(front or []) + ([Rec()] if case.get("listener", True) else []),
                  fail_at=1 if ff else None, exc=ValueError if ff else None)
     holder[0] = run
     holder[1] = oc.RecordChecker(run)
@@ -124,6 +128,10 @@ def gen(r):
         case["first_fails"] = True
     elif v < 0.3:
         case["other_solver"] = oc.gen_case(r, lim=r.choice([3, 8, 30]))
+    elif v < 0.42 and case["lim"] <= 40 and not case.get("refine"):
+        # a shipped listener in front (the interpolating / approximating painters are left to the C13 oracle: they are slow and
+        # raise on duplicate projected points - finding F-paint there)
+        case["shipped"] = oc.gen_shipped(r, case["n"])
     return case
 
 
